@@ -22,10 +22,14 @@
 (*   InvCounts     nit = number of full steps, time = start + sum of steps  *)
 (*   InvMaxit      a run not ended by its stop time took exactly `maxit`    *)
 (*                 steps, whatever the stamp of the field it started from   *)
+(*   InvMonitor    (C08) a monitor of frequency k holds exactly the         *)
+(*                 trajectory states whose cumulative iteration number is a *)
+(*                 multiple of k, in order, once each, with their times     *)
 (* Teeth: a loop that takes at most one snapshot per iteration (the pinned  *)
 (* defect D01, `SaveOnePerIter` of Driver.tla) violates InvNoneMissed; an   *)
 (* iteration limit compared with the cumulative count (seeds C07e / C07f)   *)
-(* violates InvMaxit.                                                       *)
+(* violates InvMaxit; a monitor looking at the steps of this call (C08d)    *)
+(* violates InvMonitor.                                                     *)
 (***************************************************************************)
 EXTENDS Integers, Sequences
 
@@ -65,9 +69,15 @@ VARIABLES
   \* @type: Int;
   it0,
   \* @type: Bool;
-  maxitOnTotal
+  maxitOnTotal,
+  \* @type: Int;
+  freq,
+  \* @type: Seq({it: Int, t: Int});
+  mon,
+  \* @type: Bool;
+  monOnNit
 
-vars == <<t0, s1, s2, s3, ns, hasT, T, hasM, M, pc, t, nit, isave, res, traj, onePerIter, it0, maxitOnTotal>>
+vars == <<t0, s1, s2, s3, ns, hasT, T, hasM, M, pc, t, nit, isave, res, traj, onePerIter, it0, maxitOnTotal, freq, mon, monOnNit>>
 
 TS(k) == IF k = 1 THEN s1 ELSE IF k = 2 THEN s2 ELSE s3
 (* restart(f, ...) continues the numbering of the field it is given: itstart = max(f.it, 0); solve() starts at 0.
@@ -82,10 +92,17 @@ Args == /\ t0 \in Int /\ s1 \in Int /\ s2 \in Int /\ s3 \in Int /\ ns \in 0..3
         /\ (hasT \/ hasM)                                          \* otherwise the code raises "missing stopping criteria"
         /\ (ns > 0 => hasT)                                        \* the default stop time is the last save time, unless given
         /\ it0 \in Int /\ it0 >= -1                                \* the stamp of the starting field (-1: a user's field; solve: ignored = 0)
-Init0 == /\ Args /\ pc = "pre" /\ t = t0 /\ nit = 0 /\ isave = 0 /\ res = <<>> /\ traj = <<t0>>
-Init == Init0 /\ onePerIter = FALSE /\ maxitOnTotal = FALSE
-InitBad == Init0 /\ onePerIter = TRUE /\ maxitOnTotal = FALSE
-InitBadMaxit == Init0 /\ onePerIter = FALSE /\ maxitOnTotal = TRUE
+        /\ freq \in Int /\ freq >= 1                               \* one monitor, recording every `freq` iterations
+Init0 == /\ Args /\ pc = "pre" /\ t = t0 /\ nit = 0 /\ isave = 0 /\ res = <<>> /\ traj = <<t0>> /\ mon = <<>>
+Init == Init0 /\ onePerIter = FALSE /\ maxitOnTotal = FALSE /\ monOnNit = FALSE
+InitBad == Init0 /\ onePerIter = TRUE /\ maxitOnTotal = FALSE /\ monOnNit = FALSE
+InitBadMaxit == Init0 /\ onePerIter = FALSE /\ maxitOnTotal = TRUE /\ monOnNit = FALSE
+InitBadMon == Init0 /\ onePerIter = FALSE /\ maxitOnTotal = FALSE /\ monOnNit = TRUE
+
+(* _parse_monitors: called once before the loop and after every full step; a monitor records when the CUMULATIVE iteration
+   number is a multiple of its frequency (monOnNit: the seeded variant that looks at the steps of this call, C08d) *)
+Due(n) == (IF monOnNit THEN n ELSE ItStart + n) % freq = 0
+Monitored(m, n, tt) == IF Due(n) THEN Append(m, [it |-> ItStart + n, t |-> tt]) ELSE m
 
 Rec(k, room) == [ts |-> TS(k), it |-> ItStart + nit, src |-> t, room |-> room]
 (* before the loop: requested times before the start are skipped, one equal to the start is the initial state itself *)
@@ -97,7 +114,8 @@ Pre == /\ pc = "pre"
           IN /\ res' = r3
              /\ isave' = (IF Handled(1) THEN 1 ELSE 0) + (IF Handled(2) THEN 1 ELSE 0) + (IF Handled(3) THEN 1 ELSE 0)
        /\ pc' = IF CheckEnd(t0, 0) THEN "done" ELSE "loop"
-       /\ UNCHANGED <<t0, s1, s2, s3, ns, hasT, T, hasM, M, t, nit, traj, onePerIter, it0, maxitOnTotal>>
+       /\ mon' = Monitored(mon, 0, t0)
+       /\ UNCHANGED <<t0, s1, s2, s3, ns, hasT, T, hasM, M, t, nit, traj, onePerIter, it0, maxitOnTotal, freq, monOnNit>>
 
 (* one iteration with the step d the space operator answers: every save time reached by this step, then the full step *)
 Iter(d) ==
@@ -113,7 +131,8 @@ Iter(d) ==
         /\ res' = IF stop /\ r3 = <<>> THEN <<[ts |-> t + d, it |-> ItStart + nit + 1, src |-> t + d, room |-> 0]>> ELSE r3
         /\ pc' = IF stop THEN "done" ELSE "loop"
   /\ t' = t + d /\ nit' = nit + 1 /\ traj' = Append(traj, t + d)
-  /\ UNCHANGED <<t0, s1, s2, s3, ns, hasT, T, hasM, M, onePerIter, it0, maxitOnTotal>>
+  /\ mon' = Monitored(mon, nit + 1, t + d)
+  /\ UNCHANGED <<t0, s1, s2, s3, ns, hasT, T, hasM, M, onePerIter, it0, maxitOnTotal, freq, monOnNit>>
 
 Next == Pre \/ (\E d \in Int : Iter(d)) \/ (pc = "done" /\ UNCHANGED vars)
 
@@ -132,8 +151,16 @@ InvFirstStop == /\ (pc = "done") => CheckEnd(t, nit)
                 /\ \A n \in DOMAIN traj : n < Len(traj) => ~CheckEnd(traj[n], n - 1)
 (* a run that was not ended by its stop time took exactly the number of steps asked for, whatever the stamp it started from *)
 InvMaxit == (pc = "done" /\ ~(hasT /\ t >= T)) => (hasM /\ nit = M)
+(* C08: the monitor holds exactly the trajectory states whose cumulative iteration number is a multiple of its frequency,
+   in order, each once, with the time of that state *)
+InvMonitor == (pc # "pre") =>
+  /\ \A i \in DOMAIN mon : /\ mon[i].it % freq = 0 /\ mon[i].it >= ItStart /\ mon[i].it <= ItStart + nit
+                            /\ traj[mon[i].it - ItStart + 1] = mon[i].t
+  /\ \A i, j \in DOMAIN mon : i < j => mon[i].it < mon[j].it
+  /\ \A n \in DOMAIN traj : ((ItStart + n - 1) % freq = 0) => \E i \in DOMAIN mon : mon[i].it = ItStart + n - 1
 InvCounts == Len(traj) = nit + 1 /\ traj[Len(traj)] = t /\ traj[1] = t0 /\ \A n \in DOMAIN traj : n > 1 => traj[n] > traj[n - 1]
 (* non-vacuity: three snapshots in one run, two of them in one iteration, are reachable (these must be REFUTED) *)
 InvVacThree == ~(Len(res) = 3 /\ pc = "done")
+InvVacMon == ~(Len(mon) >= 3 /\ freq >= 2 /\ ItStart >= 1)
 InvVacTwoInOne == ~(\E i, j \in DOMAIN res : i < j /\ res[i].it = res[j].it /\ res[i].it > 0)
 =============================================================================
